@@ -189,8 +189,11 @@ def shard_main(argv):
             if len(state["samples"]) < 2 and o.sample is not None and state["evals"] % 37 == 1:
                 state["samples"].append(o.sample)
 
+    use_hyp_shrink = getattr(mod, "HYPOTHESIS_SHRINK", False)
+    phases = [Phase.generate, Phase.shrink] if use_hyp_shrink else [Phase.generate]
+
     @settings(max_examples=n, database=None, deadline=None, derandomize=False,
-              suppress_health_check=list(HealthCheck), phases=[Phase.generate, Phase.shrink],
+              suppress_health_check=list(HealthCheck), phases=phases,
               report_multiple_bugs=False, print_blob=False)
     @hseed(seed * 1000 + shard)
     @given(mod.strategy(hazards))
@@ -224,6 +227,23 @@ def shard_main(argv):
               "restarts": sum(w.restarts for w in ctx.workers.values())}
     if state["last_fail"] is not None:
         case, o = state["last_fail"]
+        if not use_hyp_shrink:
+            from . import shrink as _shrink
+            target = o.failure.sig
+            holder = {"o": o}
+
+            def still_fails(cand):
+                try:
+                    oc = mod.run_case(cand, ctx)
+                except Exception:
+                    return False
+                if oc.failure is not None and oc.failure.sig == target:
+                    holder["o"] = oc
+                    return True
+                return False
+
+            case = _shrink.shrink(case, still_fails, getattr(mod, "SHRINK_BUDGET", 1500))
+            o = holder["o"]
         result["failure"] = {"sig": o.failure.sig, "detail": o.failure.detail, "info": o.failure.info,
                              "case": enc(case)}
     ctx.close()
